@@ -121,6 +121,18 @@ func init() {
 			"a connection that has finished before the next one starts is a (degenerate) interleaving of simultaneous connections",
 		},
 		Enumerate: func(tier string, emit explore.Emit) {
+			// a connection that stays silent in some protocol state (message granularity: the extreme interleaving in
+			// which one connection does nothing at all while the others run) holds up nobody
+			for _, nb := range c04StalledStates() {
+				nb := nb
+				emit(explore.Case{Family: "silent-neighbour", Size: 1,
+					Desc: func() any { return map[string]any{"silent_connection_state": nb.Name} },
+					Run: func() explore.Result {
+						r := c04RunStalled(nb, false)
+						r.Outcome = "silent-neighbour"
+						return r
+					}})
+			}
 			corpus := c15Corpus()
 			for _, pred := range corpus {
 				for _, subj := range corpus {
